@@ -18,6 +18,8 @@ theorem Rel.rfl' {bad : Res} (p : State × Res) : Rel bad p p := fun _ => rfl
 
 theorem rel_bad {bad : Res} (s : State) (q : State × Res) : Rel bad (s, bad) q := fun h => absurd rfl h
 
+theorem rel_of_bad {bad : Res} {p q : State × Res} (h : p.2 = bad) : Rel bad p q := fun hn => absurd h hn
+
 /-- the two results that every function of the mutual block passes on unchanged -/
 def Passed (bad : Res) : Prop := bad = .fuel ∨ bad = .err .limit
 
@@ -43,7 +45,8 @@ structure AllRel (bad : Res) (f m f' m' : Nat) : Prop where
 
 /-- Synchronise a pair of sub-calls: `h : Rel bad p p'` with `p`, `p'` variables of the goal
 `Rel bad (K p) (K' p')`.  Closes the case where `p` ended with `bad` (the continuation passes
-it on) and leaves the goal `Rel bad (K (s, r)) (K' (s, r))`. -/
+it on: `.fuel` and `.err .limit` always fall into the `| _ => (s1, r)` branch) and leaves the
+goal `Rel bad (K p) (K' p)` with `p' := p` substituted; continue with `split` on the pair. -/
 syntax "sync " ident ident " using " ident ident : tactic
 macro_rules
   | `(tactic| sync $p $h using $bad $hbad) => `(tactic|
@@ -130,7 +133,434 @@ theorem step_execTail {bad : Res} {f m f' m' : Nat} (hbad : Passed bad) (hm : Bu
           · exact Rel.rfl' _
         · exact Rel.rfl' _
       · exact Rel.rfl' _
-    · sorry
-    · sorry
+    · rename_i ref off len
+      split
+      · split
+        · exact Rel.rfl' _
+        · have h1 := ih.run s' ref off 0 (len - 1)
+          generalize runBody f m s' ref off 0 (len - 1) = p1 at h1 ⊢
+          generalize runBody f' m' s' ref off 0 (len - 1) = p1' at h1 ⊢
+          sync p1 h1 using bad hbad
+          split
+          rename_i s1 r1
+          split
+          · split
+            · exact ih.tail s1 _ false
+            · exact Rel.rfl' _
+          · exact Rel.rfl' _
+      · exact Rel.rfl' _
+    · exact Rel.rfl' _
+
+theorem step_runBody {bad : Res} {f m f' m' : Nat} (hbad : Passed bad) (ih : AllRel bad f m f' m')
+    (s : State) (r o i t : Nat) :
+    Rel bad (runBody (f + 1) m s r o i t) (runBody (f' + 1) m' s r o i t) := by
+  cases t with
+  | zero => unfold runBody; exact Rel.rfl' _
+  | succ t =>
+    unfold runBody
+    split
+    · exact Rel.rfl' _
+    · rename_i tok _
+      have h1 := ih.one s tok false
+      generalize execOne f m s tok false = p1 at h1 ⊢
+      generalize execOne f' m' s tok false = p1' at h1 ⊢
+      sync p1 h1 using bad hbad
+      split
+      rename_i s1 r1
+      split
+      · exact ih.run s1 r o (i + 1) t
+      · exact Rel.rfl' _
+
+/-- the common shape of the looping operators: stop at `exit`, continue on `ok`, pass on
+anything else -/
+def loopResult (p : State × Res) (next : State → State × Res) : State × Res :=
+  match p with
+  | (s1, r1) =>
+    match r1 with
+    | .err .exit => okS s1
+    | .ok => next s1
+    | _ => (s1, r1)
+
+theorem rel_loop {bad : Res} (hbad : Passed bad) {p p' : State × Res} {next next' : State → State × Res}
+    (h1 : Rel bad p p') (hn : ∀ s, Rel bad (next s) (next' s)) :
+    Rel bad (loopResult p next) (loopResult p' next') := by
+  sync p h1 using bad hbad
+  unfold loopResult
+  split
+  rename_i s1 r1
+  split
+  · exact Rel.rfl' _
+  · exact hn s1
+  · exact Rel.rfl' _
+
+theorem step_forLoop {bad : Res} {f m f' m' : Nat} (hbad : Passed bad) (ih : AllRel bad f m f' m')
+    (s : State) (v i l : Int) (p : Obj) :
+    Rel bad (forLoop (f + 1) m s v i l p) (forLoop (f' + 1) m' s v i l p) := by
+  unfold forLoop
+  split
+  · exact Rel.rfl' _
+  · exact rel_loop hbad (ih.one (pushS s (.int v)) p true) (fun s1 => ih.forL s1 _ i l p)
+
+theorem step_repeatLoop {bad : Res} {f m f' m' : Nat} (hbad : Passed bad) (ih : AllRel bad f m f' m')
+    (s : State) (k : Nat) (p : Obj) :
+    Rel bad (repeatLoop (f + 1) m s k p) (repeatLoop (f' + 1) m' s k p) := by
+  cases k with
+  | zero => unfold repeatLoop; exact Rel.rfl' _
+  | succ k =>
+    unfold repeatLoop
+    exact rel_loop hbad (ih.one s p true) (fun s1 => ih.rep s1 k p)
+
+theorem step_loopLoop {bad : Res} {f m f' m' : Nat} (hbad : Passed bad) (ih : AllRel bad f m f' m')
+    (s : State) (p : Obj) :
+    Rel bad (loopLoop (f + 1) m s p) (loopLoop (f' + 1) m' s p) := by
+  unfold loopLoop
+  exact rel_loop hbad (ih.one s p true) (fun s1 => ih.loop s1 p)
+
+theorem step_forallArr {bad : Res} {f m f' m' : Nat} (hbad : Passed bad) (ih : AllRel bad f m f' m')
+    (s : State) (r o i t : Nat) (p : Obj) :
+    Rel bad (forallArr (f + 1) m s r o i t p) (forallArr (f' + 1) m' s r o i t p) := by
+  cases t with
+  | zero => unfold forallArr; exact Rel.rfl' _
+  | succ t =>
+    unfold forallArr
+    split
+    · exact Rel.rfl' _
+    · rename_i v _
+      exact rel_loop hbad (ih.one (pushS s v) p true) (fun s1 => ih.fArr s1 r o (i + 1) t p)
+
+theorem step_forallStr {bad : Res} {f m f' m' : Nat} (hbad : Passed bad) (ih : AllRel bad f m f' m')
+    (s : State) (r o i t : Nat) (p : Obj) :
+    Rel bad (forallStr (f + 1) m s r o i t p) (forallStr (f' + 1) m' s r o i t p) := by
+  cases t with
+  | zero => unfold forallStr; exact Rel.rfl' _
+  | succ t =>
+    unfold forallStr
+    split
+    · exact Rel.rfl' _
+    · rename_i c _
+      exact rel_loop hbad (ih.one (pushS s (.int c.toNat)) p true) (fun s1 => ih.fStr s1 r o (i + 1) t p)
+
+theorem step_forallDict {bad : Res} {f m f' m' : Nat} (hbad : Passed bad) (ih : AllRel bad f m f' m')
+    (s : State) (d : Nat) (ks : List Name) (p : Obj) :
+    Rel bad (forallDict (f + 1) m s d ks p) (forallDict (f' + 1) m' s d ks p) := by
+  cases ks with
+  | nil => unfold forallDict; exact Rel.rfl' _
+  | cons k ks =>
+    unfold forallDict
+    split
+    · exact ih.fDict s d ks p
+    · rename_i v _
+      exact rel_loop hbad (ih.one (setStack s (v :: .name k :: s.vm.stack)) p true) (fun s1 => ih.fDict s1 d ks p)
+
+theorem step_scanLoop {bad : Res} {f m f' m' : Nat} (hbad : Passed bad) (ih : AllRel bad f m f' m')
+    (s : State) : Rel bad (scanLoop (f + 1) m s) (scanLoop (f' + 1) m' s) := by
+  unfold scanLoop
+  generalize withScanner s Scan.scanToken = p0
+  split
+  rename_i s1 r0
+  split
+  · exact Rel.rfl' _
+  · exact Rel.rfl' _
+  · rename_i tok
+    generalize objOfTok s1 tok = p2
+    split
+    rename_i s2 o
+    have h3 := ih.one s2 o false
+    generalize execOne f m s2 o false = p3 at h3 ⊢
+    generalize execOne f' m' s2 o false = p3' at h3 ⊢
+    sync p3 h3 using bad hbad
+    split
+    rename_i s3 r3
+    split
+    · exact ih.sLoop s3
+    · exact Rel.rfl' _
+
+theorem step_scanRun {bad : Res} {f m f' m' : Nat} (hbad : Passed bad) (ih : AllRel bad f m f' m')
+    (s : State) : Rel bad (scanRun (f + 1) m s) (scanRun (f' + 1) m' s) := by
+  unfold scanRun
+  conv => zeta
+  generalize (if s.checkStart = true then _ else (s, none) : State × Option Err) = st
+  split
+  · exact Rel.rfl' _
+  · rename_i s1
+    have h2 := ih.sLoop { s1 with scannerDepth := s1.scannerDepth + 1 }
+    generalize scanLoop f m _ = p2 at h2 ⊢
+    generalize scanLoop f' m' _ = p2' at h2 ⊢
+    sync p2 h2 using bad hbad
+    exact Rel.rfl' _
+
+theorem step_callBuiltin {bad : Res} {f m f' m' : Nat} (hbad : Passed bad) (ih : AllRel bad f m f' m')
+    (s : State) (id : String) : Rel bad (callBuiltin (f + 1) m s id) (callBuiltin (f' + 1) m' s id) := by
+  unfold callBuiltin
+  split
+  · -- exec
+    repeat' split
+    all_goals first
+      | exact Rel.rfl' _
+      | exact ih.call _ _
+      | exact ih.one _ _ _
+  · -- if
+    repeat' split
+    all_goals first
+      | exact Rel.rfl' _
+      | exact ih.one _ _ _
+  · -- ifelse
+    repeat' split
+    all_goals first
+      | exact Rel.rfl' _
+      | exact ih.one _ _ _
+  · -- for
+    repeat' split
+    all_goals first
+      | exact Rel.rfl' _
+      | exact ih.forL _ _ _ _ _
+  · -- repeat
+    repeat' split
+    all_goals first
+      | exact Rel.rfl' _
+      | exact ih.rep _ _ _
+  · -- loop
+    repeat' split
+    all_goals first
+      | exact Rel.rfl' _
+      | exact ih.loop _ _
+  · -- forall
+    repeat' split
+    all_goals first
+      | exact Rel.rfl' _
+      | exact ih.fArr _ _ _ _ _ _
+      | exact ih.fStr _ _ _ _ _ _
+      | exact ih.fDict _ _ _ _
+  · exact Rel.rfl' _
+  · exact Rel.rfl' _
+  · -- eexec
+    split
+    · exact Rel.rfl' _
+    · rename_i rest _
+      conv => zeta
+      split
+      · exact Rel.rfl' _
+      · generalize withScanner _ Scan.beginEexec = p2
+        split
+        rename_i s2 r2
+        split
+        · exact Rel.rfl' _
+        · have h3 := ih.sRun s2
+          generalize scanRun f m s2 = p3 at h3 ⊢
+          generalize scanRun f' m' s2 = p3' at h3 ⊢
+          sync p3 h3 using bad hbad
+          repeat' split
+          all_goals exact Rel.rfl' _
+    · exact Rel.rfl' _
+  · exact Rel.rfl' _
+
+/-! ### the induction -/
+
+theorem Rel.trans {bad : Res} {p q r : State × Res} (h1 : Rel bad p q) (h2 : Rel bad q r) : Rel bad p r := by
+  intro h
+  have e := h1 h
+  subst e
+  exact h2 h
+
+theorem AllRel.refl (bad : Res) (f m : Nat) : AllRel bad f m f m :=
+  ⟨fun _ _ _ => Rel.rfl' _,
+   fun _ _ _ => Rel.rfl' _,
+   fun _ _ _ => Rel.rfl' _,
+   fun _ _ _ _ _ => Rel.rfl' _,
+   fun _ _ => Rel.rfl' _,
+   fun _ _ _ _ _ => Rel.rfl' _,
+   fun _ _ _ => Rel.rfl' _,
+   fun _ _ => Rel.rfl' _,
+   fun _ _ _ _ _ _ => Rel.rfl' _,
+   fun _ _ _ _ _ _ => Rel.rfl' _,
+   fun _ _ _ _ => Rel.rfl' _,
+   fun _ => Rel.rfl' _,
+   fun _ => Rel.rfl' _⟩
+
+theorem AllRel.trans {bad : Res} {f m f' m' f'' m'' : Nat} (h1 : AllRel bad f m f' m')
+    (h2 : AllRel bad f' m' f'' m'') : AllRel bad f m f'' m'' :=
+  ⟨fun s o b => (h1.one s o b).trans (h2.one s o b),
+   fun s o b => (h1.body s o b).trans (h2.body s o b),
+   fun s o b => (h1.tail s o b).trans (h2.tail s o b),
+   fun s r o i n => (h1.run s r o i n).trans (h2.run s r o i n),
+   fun s id => (h1.call s id).trans (h2.call s id),
+   fun s v i l p => (h1.forL s v i l p).trans (h2.forL s v i l p),
+   fun s n p => (h1.rep s n p).trans (h2.rep s n p),
+   fun s p => (h1.loop s p).trans (h2.loop s p),
+   fun s r o i n p => (h1.fArr s r o i n p).trans (h2.fArr s r o i n p),
+   fun s r o i n p => (h1.fStr s r o i n p).trans (h2.fStr s r o i n p),
+   fun s d ks p => (h1.fDict s d ks p).trans (h2.fDict s d ks p),
+   fun s => (h1.sRun s).trans (h2.sRun s),
+   fun s => (h1.sLoop s).trans (h2.sLoop s)⟩
+
+/-- one more unit of fuel on both sides -/
+theorem AllRel.step {bad : Res} {f m f' m' : Nat} (hbad : Passed bad) (hm : Budgets bad m m')
+    (ih : AllRel bad f m f' m') : AllRel bad (f + 1) m (f' + 1) m' :=
+  ⟨step_execOne hbad ih, step_execBody ih, step_execTail hbad hm ih, step_runBody hbad ih,
+   step_callBuiltin hbad ih, step_forLoop hbad ih, step_repeatLoop hbad ih, step_loopLoop hbad ih,
+   step_forallArr hbad ih, step_forallStr hbad ih, step_forallDict hbad ih, step_scanRun hbad ih,
+   step_scanLoop hbad ih⟩
+
+/-- `Interpreter.Execute` passes the result of `scanRun` on, except `ok`, `exit` and `stop` -/
+theorem rel_execute {bad : Res} {f m f' m' : Nat} (hbad : Passed bad) (s : State) (input : List UInt8)
+    (fault : Option String)
+    (h : ∀ s0, Rel bad (scanRun f m s0) (scanRun f' m' s0)) :
+    Rel bad (execute f m s input fault) (execute f' m' s input fault) := by
+  unfold execute
+  conv => zeta
+  have h1 := h { s with scanner := { src := input, fault := fault } }
+  generalize scanRun f m _ = p1 at h1 ⊢
+  generalize scanRun f' m' _ = p1' at h1 ⊢
+  sync p1 h1 using bad hbad
+  exact Rel.rfl' _
+
+/-! ### fuel monotonicity -/
+
+/-- **one more unit of fuel does not change a call that did not run out of fuel**, for all
+functions of the mutual block at once -/
+theorem fuel_succ (m : Nat) : ∀ f, AllRel .fuel f m (f + 1) m
+  | 0 =>
+    ⟨fun _ _ _ => rel_of_bad (by simp only [execOne]),
+     fun _ _ _ => rel_of_bad (by simp only [execBody]),
+     fun _ _ _ => rel_of_bad (by simp only [execTail]),
+     fun _ _ _ _ _ => rel_of_bad (by simp only [runBody]),
+     fun _ _ => rel_of_bad (by simp only [callBuiltin]),
+     fun _ _ _ _ _ => rel_of_bad (by simp only [forLoop]),
+     fun _ _ _ => rel_of_bad (by simp only [repeatLoop]),
+     fun _ _ => rel_of_bad (by simp only [loopLoop]),
+     fun _ _ _ _ _ _ => rel_of_bad (by simp only [forallArr]),
+     fun _ _ _ _ _ _ => rel_of_bad (by simp only [forallStr]),
+     fun _ _ _ _ => rel_of_bad (by simp only [forallDict]),
+     fun _ => rel_of_bad (by simp only [scanRun]),
+     fun _ => rel_of_bad (by simp only [scanLoop])⟩
+  | f + 1 => (fuel_succ m f).step (Or.inl rfl) (Or.inl rfl)
+
+/-- **any larger fuel gives the same outcome as a fuel that was enough** -/
+theorem fuel_le (m : Nat) {f f' : Nat} (h : f ≤ f') : AllRel .fuel f m f' m := by
+  induction h with
+  | refl => exact AllRel.refl _ _ _
+  | step _ ih => exact ih.trans (fuel_succ m _)
+
+theorem execOne_fuel_succ (f m : Nat) (s : State) (o : Obj) (b : Bool)
+    (h : (execOne f m s o b).2 ≠ .fuel) : execOne (f + 1) m s o b = execOne f m s o b :=
+  (fuel_succ m f).one s o b h
+
+theorem execBody_fuel_succ (f m : Nat) (s : State) (o : Obj) (b : Bool)
+    (h : (execBody f m s o b).2 ≠ .fuel) : execBody (f + 1) m s o b = execBody f m s o b :=
+  (fuel_succ m f).body s o b h
+
+theorem execTail_fuel_succ (f m : Nat) (s : State) (o : Obj) (b : Bool)
+    (h : (execTail f m s o b).2 ≠ .fuel) : execTail (f + 1) m s o b = execTail f m s o b :=
+  (fuel_succ m f).tail s o b h
+
+theorem runBody_fuel_succ (f m : Nat) (s : State) (r o i n : Nat)
+    (h : (runBody f m s r o i n).2 ≠ .fuel) : runBody (f + 1) m s r o i n = runBody f m s r o i n :=
+  (fuel_succ m f).run s r o i n h
+
+theorem callBuiltin_fuel_succ (f m : Nat) (s : State) (id : String)
+    (h : (callBuiltin f m s id).2 ≠ .fuel) : callBuiltin (f + 1) m s id = callBuiltin f m s id :=
+  (fuel_succ m f).call s id h
+
+theorem forLoop_fuel_succ (f m : Nat) (s : State) (v i l : Int) (p : Obj)
+    (h : (forLoop f m s v i l p).2 ≠ .fuel) : forLoop (f + 1) m s v i l p = forLoop f m s v i l p :=
+  (fuel_succ m f).forL s v i l p h
+
+theorem repeatLoop_fuel_succ (f m : Nat) (s : State) (n : Nat) (p : Obj)
+    (h : (repeatLoop f m s n p).2 ≠ .fuel) : repeatLoop (f + 1) m s n p = repeatLoop f m s n p :=
+  (fuel_succ m f).rep s n p h
+
+theorem loopLoop_fuel_succ (f m : Nat) (s : State) (p : Obj)
+    (h : (loopLoop f m s p).2 ≠ .fuel) : loopLoop (f + 1) m s p = loopLoop f m s p :=
+  (fuel_succ m f).loop s p h
+
+theorem forallArr_fuel_succ (f m : Nat) (s : State) (r o i n : Nat) (p : Obj)
+    (h : (forallArr f m s r o i n p).2 ≠ .fuel) : forallArr (f + 1) m s r o i n p = forallArr f m s r o i n p :=
+  (fuel_succ m f).fArr s r o i n p h
+
+theorem forallStr_fuel_succ (f m : Nat) (s : State) (r o i n : Nat) (p : Obj)
+    (h : (forallStr f m s r o i n p).2 ≠ .fuel) : forallStr (f + 1) m s r o i n p = forallStr f m s r o i n p :=
+  (fuel_succ m f).fStr s r o i n p h
+
+theorem forallDict_fuel_succ (f m : Nat) (s : State) (d : Nat) (ks : List Name) (p : Obj)
+    (h : (forallDict f m s d ks p).2 ≠ .fuel) : forallDict (f + 1) m s d ks p = forallDict f m s d ks p :=
+  (fuel_succ m f).fDict s d ks p h
+
+theorem scanRun_fuel_succ (f m : Nat) (s : State)
+    (h : (scanRun f m s).2 ≠ .fuel) : scanRun (f + 1) m s = scanRun f m s :=
+  (fuel_succ m f).sRun s h
+
+theorem scanLoop_fuel_succ (f m : Nat) (s : State)
+    (h : (scanLoop f m s).2 ≠ .fuel) : scanLoop (f + 1) m s = scanLoop f m s :=
+  (fuel_succ m f).sLoop s h
+
+theorem execOne_fuel_mono {f f' : Nat} (hf : f ≤ f') (m : Nat) (s : State) (o : Obj) (b : Bool)
+    (h : (execOne f m s o b).2 ≠ .fuel) : execOne f' m s o b = execOne f m s o b :=
+  (fuel_le m hf).one s o b h
+
+theorem execBody_fuel_mono {f f' : Nat} (hf : f ≤ f') (m : Nat) (s : State) (o : Obj) (b : Bool)
+    (h : (execBody f m s o b).2 ≠ .fuel) : execBody f' m s o b = execBody f m s o b :=
+  (fuel_le m hf).body s o b h
+
+theorem execTail_fuel_mono {f f' : Nat} (hf : f ≤ f') (m : Nat) (s : State) (o : Obj) (b : Bool)
+    (h : (execTail f m s o b).2 ≠ .fuel) : execTail f' m s o b = execTail f m s o b :=
+  (fuel_le m hf).tail s o b h
+
+theorem runBody_fuel_mono {f f' : Nat} (hf : f ≤ f') (m : Nat) (s : State) (r o i n : Nat)
+    (h : (runBody f m s r o i n).2 ≠ .fuel) : runBody f' m s r o i n = runBody f m s r o i n :=
+  (fuel_le m hf).run s r o i n h
+
+theorem callBuiltin_fuel_mono {f f' : Nat} (hf : f ≤ f') (m : Nat) (s : State) (id : String)
+    (h : (callBuiltin f m s id).2 ≠ .fuel) : callBuiltin f' m s id = callBuiltin f m s id :=
+  (fuel_le m hf).call s id h
+
+theorem forLoop_fuel_mono {f f' : Nat} (hf : f ≤ f') (m : Nat) (s : State) (v i l : Int) (p : Obj)
+    (h : (forLoop f m s v i l p).2 ≠ .fuel) : forLoop f' m s v i l p = forLoop f m s v i l p :=
+  (fuel_le m hf).forL s v i l p h
+
+theorem repeatLoop_fuel_mono {f f' : Nat} (hf : f ≤ f') (m : Nat) (s : State) (n : Nat) (p : Obj)
+    (h : (repeatLoop f m s n p).2 ≠ .fuel) : repeatLoop f' m s n p = repeatLoop f m s n p :=
+  (fuel_le m hf).rep s n p h
+
+theorem loopLoop_fuel_mono {f f' : Nat} (hf : f ≤ f') (m : Nat) (s : State) (p : Obj)
+    (h : (loopLoop f m s p).2 ≠ .fuel) : loopLoop f' m s p = loopLoop f m s p :=
+  (fuel_le m hf).loop s p h
+
+theorem forallArr_fuel_mono {f f' : Nat} (hf : f ≤ f') (m : Nat) (s : State) (r o i n : Nat) (p : Obj)
+    (h : (forallArr f m s r o i n p).2 ≠ .fuel) : forallArr f' m s r o i n p = forallArr f m s r o i n p :=
+  (fuel_le m hf).fArr s r o i n p h
+
+theorem forallStr_fuel_mono {f f' : Nat} (hf : f ≤ f') (m : Nat) (s : State) (r o i n : Nat) (p : Obj)
+    (h : (forallStr f m s r o i n p).2 ≠ .fuel) : forallStr f' m s r o i n p = forallStr f m s r o i n p :=
+  (fuel_le m hf).fStr s r o i n p h
+
+theorem forallDict_fuel_mono {f f' : Nat} (hf : f ≤ f') (m : Nat) (s : State) (d : Nat) (ks : List Name) (p : Obj)
+    (h : (forallDict f m s d ks p).2 ≠ .fuel) : forallDict f' m s d ks p = forallDict f m s d ks p :=
+  (fuel_le m hf).fDict s d ks p h
+
+theorem scanRun_fuel_mono {f f' : Nat} (hf : f ≤ f') (m : Nat) (s : State)
+    (h : (scanRun f m s).2 ≠ .fuel) : scanRun f' m s = scanRun f m s :=
+  (fuel_le m hf).sRun s h
+
+theorem scanLoop_fuel_mono {f f' : Nat} (hf : f ≤ f') (m : Nat) (s : State)
+    (h : (scanLoop f m s).2 ≠ .fuel) : scanLoop f' m s = scanLoop f m s :=
+  (fuel_le m hf).sLoop s h
+
+/-- fuel monotonicity of the top-level `Execute` -/
+theorem execute_fuel_succ (f m : Nat) (s : State) (input : List UInt8) (fault : Option String)
+    (h : (execute f m s input fault).2 ≠ .fuel) :
+    execute (f + 1) m s input fault = execute f m s input fault :=
+  rel_execute (Or.inl rfl) s input fault (fuel_succ m f).sRun h
+
+theorem execute_fuel_mono {f f' : Nat} (hf : f ≤ f') (m : Nat) (s : State) (input : List UInt8)
+    (fault : Option String) (h : (execute f m s input fault).2 ≠ .fuel) :
+    execute f' m s input fault = execute f m s input fault :=
+  rel_execute (Or.inl rfl) s input fault (fuel_le m hf).sRun h
+
+#print axioms fuel_succ
+#print axioms fuel_le
+#print axioms execOne_fuel_mono
+#print axioms scanRun_fuel_mono
+#print axioms execute_fuel_succ
+#print axioms execute_fuel_mono
 
 end PsVerif.Proofs.InterpFuel
